@@ -412,7 +412,8 @@ def load_findings():
 
 
 def write_replay(prop, name, payload):
-    d = os.path.join(VERIF, "replays")
+    # bin/try_mutant and bin/seeded_sweep (runs on a deliberately broken tree) redirect replays and evidence to scratch
+    d = os.environ.get("VERIF_REPLAY_DIR") or os.path.join(VERIF, "replays")
     os.makedirs(d, exist_ok=True)
     p = os.path.join(d, f"{prop}_{name}.json")
     with open(p, "w") as f:
@@ -421,10 +422,11 @@ def write_replay(prop, name, payload):
 
 
 def write_evidence(prop, tier, seed, level, coverage, wall, violations, assumptions):
-    os.makedirs(os.path.join(VERIF, "evidence"), exist_ok=True)
+    evdir = os.environ.get("VERIF_EVIDENCE_DIR") or os.path.join(VERIF, "evidence")
+    os.makedirs(evdir, exist_ok=True)
     ev = {"property_id": prop, "tier": tier, "seed": int(seed), "level": level, "coverage": coverage,
           "assumptions": assumptions, "wall_s": round(wall, 1), "violations": int(violations)}
-    with open(os.path.join(VERIF, "evidence", prop + ".json"), "w") as f:
+    with open(os.path.join(evdir, prop + ".json"), "w") as f:
         json.dump(ev, f, indent=1, sort_keys=True)
     return ev
 
